@@ -19,7 +19,7 @@ class InnerSubscription(abc.DisposableBase):
         self.lock = threading.RLock()
 
     def dispose(self) -> None:
-        with self.lock:
+        with self.lock, self.subject.lock:
             if not self.subject.is_disposed and self.observer:
                 if self.observer in self.subject.observers:
                     self.subject.observers.remove(self.observer)
